@@ -357,7 +357,67 @@ fn check_batch(batch: &[&Shape], with_cli_env: bool) -> Outcome {
 	Outcome { violations: v, env, text, evaluations }
 }
 
+/// Events-file leg (`--emit-events-to=file`): the file handed to the command holds exactly
+/// the line format of the current batch — also for the batch after one whose temporary file
+/// could be created, when creating the next one fails (the directory vanished): either the
+/// hand-over fails, or the file is right; never the previous file patched up.
+fn events_file_leg(out: &mut EnumOut) {
+	use watchexec_cli::verif::{emits_to_file, RotatingTempFile};
+	let scratch = crate::common::Scratch::new("c17-file");
+	let dir = scratch.path().join("tmp-a");
+	let _ = std::fs::create_dir_all(&dir);
+	// WATCHEXEC_TMPDIR is process-global: this leg runs alone, after the parallel part
+	std::env::set_var("WATCHEXEC_TMPDIR", &dir);
+	let ev = |p: &str| Event {
+		tags: vec![
+			Tag::Source(Source::Filesystem),
+			Tag::FileEventKind(FileEventKind::Create(watchexec_events::filekind::CreateKind::File)),
+			Tag::Path { path: PathBuf::from(p), file_type: Some(FileType::File) },
+		],
+		metadata: Default::default(),
+	};
+	let batches = [vec![ev("/w/first-batch/a-rather-long-name.txt"), ev("/w/first-batch/b.txt")], vec![ev("/w/second.txt")], vec![]];
+	let target = RotatingTempFile::default();
+	let mut cases = 0u64;
+	for (i, b) in batches.iter().enumerate() {
+		if i == 1 {
+			// from now on no new temporary file can be created
+			let _ = std::fs::remove_dir_all(&dir);
+		}
+		cases += 1;
+		out.states += 1;
+		out.evaluations += 1;
+		let want = match events_to_simple_format(b) {
+			Ok(t) => t,
+			Err(e) => {
+				out.violate("C17/events-file/format-failed", e.to_string(), json!({"kind": "events-file"}));
+				continue;
+			}
+		};
+		match emits_to_file(&target, b) {
+			Err(_) if i >= 1 => {} // refusing is fine once the directory is gone
+			Err(e) => out.violate("C17/events-file/hand-over-failed", format!("batch {i}: {e}"), json!({"kind": "events-file"})),
+			Ok(path) => match std::fs::read(&path) {
+				Ok(bytes) if bytes == want.as_bytes() => {}
+				Ok(bytes) => out.violate(
+					format!("C17/events-file/content-differs/{}", if i == 0 { "first-batch" } else { "after-failed-rotation" }),
+					format!("batch {i}: the file {} handed to the command holds {:?}, the batch's line format is {want:?}", path.display(), String::from_utf8_lossy(&bytes)),
+					json!({"kind": "events-file"}),
+				),
+				Err(e) => out.violate("C17/events-file/unreadable", format!("batch {i}: {}: {e}", path.display()), json!({"kind": "events-file"})),
+			},
+		}
+	}
+	std::env::remove_var("WATCHEXEC_TMPDIR");
+	out.extra.insert("events_file_leg".into(), json!({"batches": cases}));
+}
+
 pub fn replay(input: &Value) -> Vec<(String, String)> {
+	if input["kind"] == "events-file" {
+		let mut o = EnumOut::new("replay");
+		events_file_leg(&mut o);
+		return o.violations.into_iter().map(|c| (c.key, c.detail)).collect();
+	}
 	let table = fs_table();
 	let shapes: Option<Vec<Shape>> = input["batch"].as_array().map(|a| a.iter().map(|s| build_shape(s, &table)).collect()).unwrap_or(None);
 	let Some(shapes) = shapes else {
@@ -434,6 +494,7 @@ pub fn run(tier: Tier, seed: u64) -> EnumOut {
 	});
 	out.extra.insert("batches".into(), json!(body.states));
 	out.merge(body);
+	events_file_leg(&mut out);
 
 	// the complete kind -> variable / label table on one path
 	let mut kinds_done = 0u64;
